@@ -15,7 +15,7 @@ import vlib
 MODEL = {"quick": dict(MaxDocs=3, MaxToks=3), "thorough": dict(MaxDocs=4, MaxToks=5)}
 INVS = ["InvDf", "InvVocab", "InvRows", "InvWindow", "InvAlgebra", "InvTokens"]
 ACTIONS = ["ReadDoc", "Filter", "Reindex", "Analyze"]
-FAMS = ["ngram", "dfwin", "cap", "stop", "canon", "fixed", "mixed", "idf"]
+FAMS = ["ngram", "dfwin", "cap", "stop", "canon", "fixed", "mixed", "idf", "hist"]
 TRACE_CONST = dict(MaxDocs=0, MaxToks=0)
 RANDOM_CASES = 2500
 
@@ -82,8 +82,8 @@ def random_cases(ctx, count):
 
 def _something_counted(trace):
     for e in trace["ev"]:
-        if e.get("ev") == "count" and e.get("on") == "train" and e.get("ok"):
-            return any(x > 0 for row in e["m"] for x in row)
+        if e.get("ev") in ("count", "tfidf") and e.get("on") == "train" and e.get("ok"):
+            return any(x != 0 for row in e["m"] for x in row)
     return trace["kind"] == "idf"
 
 
@@ -126,12 +126,13 @@ def run(ctx):
     traces = vlib.run_harness(ctx, binp, cases, timeout=2400)
     ctx.nontrivial = len({json.dumps(t["inp"], sort_keys=True) for t in traces if _something_counted(t)})
     vlib.sample(ctx, [t for t in traces if t["inp"].get("fam") == "canon"][300:301]
+                + [t for t in traces if t["inp"].get("fam") == "hist" and t["inp"]["via"] == "clone"][5:6]
                 + [t for t in traces if t["inp"].get("fam") == "dfwin" and len(t["inp"]["train"]) == 4][40:41])
     vlib.validate_with_findings(ctx, "Trace_Vectorizer", traces, constants=TRACE_CONST, chunk=4500, timeout=2400)
     ctx.extra.update(_cap_readings(ctx))
     ctx.extra["cases_per_family"] = {f: sum(1 for c in cases if c["inp"].get("fam") == f) for f in FAMS + ["random"]}
     ctx.rule = ("cases = corpora x settings enumerated by TLC (Gen_Vectorizer: families ngram, dfwin, cap, stop, canon, fixed, "
-                "mixed, idf) [+ seeded random corpora <= 8 documents x 12 tokens in the thorough tier]; non-trivial = the "
+                "mixed, idf, hist = builder histories: used with s1, re-configured by one setter on the same value or a clone, fitted with s2) [+ seeded random corpora <= 8 documents x 12 tokens in the thorough tier]; non-trivial = the "
                 "recorded count matrix of the training corpus has a non-zero entry (or an idf case); distinct by input")
     ctx.trusted = ["TLC + CommunityModules Json",
                    "Unicode facts of the 8 non-ASCII code points of Vectorizer.tla!Alphabet (NFKD, lower-case, \\w, White_Space)",
@@ -141,6 +142,7 @@ def run(ctx):
                        "'most frequent' under max_features is accepted for document frequency or corpus term frequency, ties arbitrary",
                        "stop words are compared with vocabulary entries as given (no canonicalisation of the stop list)",
                        "tf-idf entries are compared at 1e-4 with slack 2e-4 per unit of count (+1e-4)",
+                       "history cases: the settings in force at fit time are those last written by the setters (s2), for the same value and for a clone; the untouched original of a clone keeps s1",
                        "idf methods other than Smooth are reached through the serde representation of TfIdfVectorizer (no public setter)"]
     return vlib.finish(ctx)
 
